@@ -146,9 +146,11 @@ def cursor_check(prop, tier, seed):
         gen("fwd", "buf", 1, 1, 1, [17], ["get"], getters, list(range(0, 9)), 2 if q else 1, take=12000)
         gen("sim", "buf", 3, 3, 3, [1, 3, 9], ["get", "advance"], getters, list(range(0, 9)), 1, simulate=(1500 if q else 30000, 30), take=1500)
     elif prop == "C11":
-        gens.append(K.design_mc("C11_design", 1 if q else 2, 2, 1 if q else 2, [0, 1, 3], ["remaining_mut", "chunk_mut_len", "put_slice", "put", "put_buf"],
-                                putters if q else ["put_u8", "put_u16_le", "put_uint", "put_i32", "put_int_le", "put_u64", "put_f32_ne"], [0, 3, 8],
-                                leaf_types=["slice", "uninit", "vec", "bytesmut"], wraps=("ref",), side="mut"))
+        dm = K.design_mc("C11_design", 1 if q else 2, 2, 1 if q else 2, [0, 1, 3], ["remaining_mut", "chunk_mut_len", "put_slice", "put", "put_buf"],
+                         putters if q else ["put_u8", "put_u16_le", "put_uint", "put_i32", "put_int_le", "put_u64", "put_f32_ne"], [0, 3, 8],
+                         leaf_types=["slice", "uninit", "vec", "bytesmut"], wraps=("ref",), side="mut", sample_k=40 if q else 200, seed=seed)
+        design_progs = dm.pop("design_programs")
+        gens.append(dm)
         gen("bfs", "mut", 1, 2, 1, [0, 1, 3, 9], MUT_OPS, putters, list(range(0, 9)), 100 if q else 10, take=4000)
         gen("sim", "mut", 3, 3, 3, [1, 3, 9], MUT_OPS, putters, list(range(0, 9)), 1, simulate=(1500 if q else 30000, 30), take=1500)
     elif prop == "C12":
@@ -158,8 +160,10 @@ def cursor_check(prop, tier, seed):
         gens.append(dm)
         gen("bufsim", "buf", 4 if not q else 3, 4, 4, [0, 2, 3], ["advance", "copy_to_slice", "copy_to_bytes", "read", "set_limit", "consume", "remaining", "get", "chunks_vectored", "chunk", "into_iter", "iter_nth"],
             ["get_u16", "get_u8", "try_get_u32_le"], [0], 1, simulate=(2500 if q else 40000, 40), take=2500)
-        gens.append(K.design_mc("C12_sink_design", 2, 2, 1, [0, 1, 3], ["remaining_mut", "chunk_mut_len", "put_slice", "put_buf"], [], [0],
-                                leaf_types=["slice", "vec", "bytesmut"], wraps=("ref",), side="mut"))
+        dms = K.design_mc("C12_sink_design", 2, 2, 1, [0, 1, 3], ["remaining_mut", "chunk_mut_len", "put_slice", "put_buf"], [], [0],
+                          leaf_types=["slice", "vec", "bytesmut"], wraps=("ref",), side="mut", sample_k=150 if q else 40, seed=seed)
+        design_progs = design_progs + dms.pop("design_programs")
+        gens.append(dms)
         gen("mutsim", "mut", 4 if not q else 3, 4, 4, [0, 2, 3], ["put_slice", "write", "set_limit", "remaining_mut", "has_remaining_mut", "put_bytes", "put", "put_buf", "chunk_mut_len", "advance_mut", "manual"],
             ["put_u16", "put_u8", "put_u32_le"], [0], 1, simulate=(2500 if q else 40000, 40), take=2500)
         gen("bfs", "buf", 2, 2, 1 if q else 2, [2], ["advance", "read", "set_limit", "copy_to_bytes"], [], [0], 20 if q else 40, take=2500)
@@ -172,10 +176,10 @@ def cursor_check(prop, tier, seed):
         steps, drift, notes = K.conformance(dr["progs"], dr["trace"])
         results.append(dr)
         for g in gens:
-            if g.get("mode", "").startswith("design model BufTree"):
+            if g.get("mode", "").startswith("design model"):
                 g.update({"conformance_steps": steps, "conformance_drift": drift, "model_drift": drift > 0, "drift_samples": notes})
         if drift:
-            print("DRIFT property=%s: the code deviates from the design model BufTree.tla in %d of %d replayed steps (not a verdict; the laws still "
+            print("DRIFT property=%s: the code deviates from the design model BufTree.tla / SinkTree.tla in %d of %d replayed steps (not a verdict; the laws still "
                   "judge every step). First: %s" % (prop, drift, steps, notes[:1]))
     return K.report(prop, results, gens, tier, seed, t0, ASSUME_CURSORS)
 
